@@ -652,7 +652,24 @@ def hand_written_cases():
     c4 = dict(labels=["w0"], params=[], wbs={"w0": {ROOT: dict(kind="index", ntags=0, rows=[row("content_index", "sub1")]),
                                                      "sub1": dict(kind="index", ntags=0, rows=[row("content_index", "sub2")]),
                                                      "sub2": dict(kind="index", ntags=0, rows=[row("content_index", "sub1")])}})
-    return [c1, c2, c3, c4]
+    # the history of coq/theories/Index/IndexExamples.v (the witness of the non-vacuity Examples
+    # and of C10_design_item3_literal_refuted), replayed on the implementation on every run
+    def t(r, tag=""):
+        r["tags"] = [tag]
+        return r
+    c5 = dict(labels=["w0", "w1"], params=["1", "a"], wbs={
+        "w0": {ROOT: dict(kind="index", ntags=1, rows=[
+            t(row("create_flow", "A"), "a"), t(row("create_flow", "B", new="X")), t(row("create_flow", "A", new="X")),
+            t(row("create_flow", "C", status="draft")), t(row("create_flow", "C"), "b"),
+            t(row("create_campaign", "C1", new="camp", group="g1")), t(row("ignore_row", "A")),
+            t(row("content_index", "sub1")), t(row("create_triggers", "T1"))]),
+            "sub1": dict(kind="index", ntags=1, rows=[
+                t(row("create_flow", "A"), "a"), t(row("create_campaign", "C1", new="camp", group="g2")),
+                t(row("template_definition", "A", targ="t1"))]),
+            "A": F, "B": F, "C1": dict(kind="campaign"), "T1": dict(kind="triggers", flows=["X"])},
+        "w1": {ROOT: dict(kind="index", ntags=1, rows=[t(row("data_sheet", "D1")), t(row("create_flow", "C", dsheet="D1"))]),
+               "A": F, "C": F, "D1": dict(kind="data", ids=["r1", "r2"])}})
+    return [c1, c2, c3, c4, c5]
 
 
 def run(ctx):
@@ -690,7 +707,11 @@ def run(ctx):
         if not same(im, rf):
             def bad(c, o):
                 return not same(run_impl(c, o), ref(c, o))
-            c2, o2 = shrink(case, order, bad)
+            # shrink only while the class is new: a mass failure must still end in minutes
+            if v.viol_by_key.get(diff_class(im, rf), 0) < 2 and sum(v.viol_by_key.values()) < 12:
+                c2, o2 = shrink(case, order, bad)
+            else:
+                c2, o2 = case, order
             im2, rf2 = run_impl(c2, o2), ref(c2, o2)
             v.failing_input(diff_class(im2, rf2),
                             f"create_flows gives {im2!r}; sequential last-definition-wins reading gives {rf2!r}",
@@ -705,7 +726,7 @@ def run(ctx):
                     a = dec_model(m.ask(enc_case(c, o)), o)
                     b = run_impl(c, o)
                     return (a if a[0] != "err" else ("err",)) != (b if b[0] != "err" else ("err",))
-                c2, o2 = shrink(case, order, bad2)
+                c2, o2 = shrink(case, order, bad2) if len(ctx.disagreements) < 3 else (case, order)
                 ctx.disagree("create_flows projection (" + tag + ")", dict(case=c2, order=o2),
                              repr(dec_model(m.ask(enc_case(c2, o2)), o2)), repr(run_impl(c2, o2)))
         return im, rf
@@ -714,6 +735,19 @@ def run(ctx):
     for case in hand_written_cases():
         for order in itertools.permutations(case["labels"]):
             oracle_and_tie(case, list(order), "fixed")
+
+    # the witness of the Coq Examples (props/C10.v: C10_last_definition_wins_nonvacuous,
+    # C10_design_item3_literal_refuted) must be what the implementation produces
+    c5 = hand_written_cases()[4]
+    want5 = ("ok",
+             [("X", ("w1", "A"), "t1", None), ("A", ("w1", "A"), "t1", None),
+              ("C - r1", ("w1", "C"), "", ("w1", "D1", 0)), ("C - r2", ("w1", "C"), "", ("w1", "D1", 1))],
+             [("camp", ("w0", "C1"), "g2")], [(("w0", "T1"), 0, "X")])
+    got5 = run_impl(c5, ["w0", "w1"])
+    v.coverage["evaluations"] += 1
+    if not same(got5, want5):
+        ctx.disagree("witness history of the Coq Examples (IndexExamples.v)", dict(case=c5, order=["w0", "w1"]),
+                     repr(want5), repr(got5))
 
     for k in range(n_hist):
         malformed = rng.random() < 0.15
